@@ -136,4 +136,6 @@ def replay(o, tree):
         return deferred_c.replay_poly_nested(cfg, o.get("witness") or {}, tree)
     if cfg.get("kind") == "poly-selfref":
         return deferred_c.replay_poly_selfref(cfg, o.get("witness") or {}, tree)
+    if cfg.get("kind") == "poly-mul":
+        return deferred_c.replay_poly_mul(cfg, o.get("witness") or {}, tree)
     return None
